@@ -30,7 +30,7 @@ func DumpSymx(p *load.Program, spec string) {
 		f := sx.Of(fn)
 		fmt.Println("func", fn.String())
 		for _, b := range fn.Blocks {
-			fmt.Printf(" block %d (%s) preds=%d\n", b.Index, b.Comment, len(b.Preds))
+			fmt.Printf(" block %d (%s) preds=%d  %s\n", b.Index, b.Comment, len(b.Preds), f.DebugState(b))
 			for _, in := range b.Instrs {
 				if v, ok := in.(ssa.Value); ok {
 					fmt.Printf("   %-5s = %s\n", v.Name(), f.E(v))
